@@ -36,6 +36,17 @@ def handle (line : String) : String :=
         let c := GA.Unshare.goM flags ⟨fun _ => true, un = "1", su = "1", fun _ => true⟩
         "OK released=" ++ toString c.released ++ " fn=" ++ toString c.fnRan ++ " err=" ++ toString c.err
       | none => "bad-op"
+  | "idmap" :: which :: um :: gm :: u :: g :: _ =>
+      match u.toNat?, g.toNat? with
+      | some uid, some gid =>
+        let o : Opts := { uidMaps := if um = "-" then [] else parseRanges um, gidMaps := if gm = "-" then [] else parseRanges gm }
+        let show2 : Option (Nat × Nat) → String := fun r => match r with
+          | some (a, b) => "OK " ++ toString a ++ " " ++ toString b | none => "ERR"
+        if which = "tohost" then show2 (toHostPair o uid gid)
+        else if which = "tocontainer" then show2 (toContainerPair o uid gid)
+        else if which = "rootpair" then show2 (rootPair o)
+        else "bad-op"
+      | _, _ => "bad-op"
   | "within" :: a :: b :: _ => match strOfHex a, strOfHex b with
       | some x, some y => if isWithin x y then "OK 01" else "OK 00" | _, _ => "bad-op"
   | op :: _ => if op = "untar" ∨ op = "layer" ∨ op = "untar-chroot" ∨ op = "layer-chroot" then handleFs ws else "bad-op"
